@@ -1787,69 +1787,87 @@ def identity_stream(ctx, rounds):
 # a forward Scatter node (built directly): the adjoint of its source
 # ----------------------------------------------------------------------------------------------
 
+def run_scatter(w):
+    """A forward Scatter node, possibly with a batched index tensor idx[bt, a]:
+       root = (+)_b Scatter(sum_op, (('b', idx),), src, {a}) (*) wt(b)   [bt free or reduced in the root]
+       -> (status, got table over (a, bt), wanted table): d root[bt] / d src[a] = wt[idx[bt, a]]"""
+    from funsor.terms import Scatter
+    sr = w["sr"]
+    log = sr != "add-mul"
+    sum_op, prod_op = (ops.logaddexp, ops.add) if log else (ops.add, ops.mul)
+    idx_tab = np.array(w["idx"])                       # shape (nbt, nk) or (nk,)
+    batched = idx_tab.ndim == 2
+    nk, ni = idx_tab.shape[-1], len(w["w"])
+    nbt = idx_tab.shape[0] if batched else 1
+    sd = np.array(w["src"], dtype=np.float64)          # shape (nk,) or (nbt, nk) when the source has bt too
+    src_in = OrderedDict(([("c", Bint[nbt])] if sd.ndim == 2 else []) + [("a", Bint[nk])])
+    src = Tensor(to_impl_data(sd, sr), src_in)
+    idx = Tensor(idx_tab, OrderedDict(([("c", Bint[nbt])] if batched else []) + [("a", Bint[nk])]), ni)
+    wt = Tensor(to_impl_data(np.array(w["w"], dtype=np.float64), sr), OrderedDict(b=Bint[ni]))
+    with reflect:
+        dest = Scatter(sum_op, (("b", idx),), src, frozenset({Variable("a", Bint[nk])}))
+        e = prod_op(dest, wt).reduce(sum_op, "b")
+        if w["reduce_bt"] and (batched or sd.ndim == 2):
+            e = e.reduce(sum_op, "c")
+    with np.errstate(all="ignore"):
+        fwd, bwd = forward_backward(sum_op, prod_op, e)
+    g = bwd[src]
+    if not set(getattr(g, "inputs", ())) <= {"a", "c"}:
+        return "inputs", str(getattr(g, "inputs", g)), None
+    t = futil.table(g, [("a", nk), ("c", nbt)])
+    if t is None:
+        return "lazy", None, None
+    got = np.exp(t) if log else t
+    wd = np.array(w["w"], dtype=np.float64)
+    full = np.array([[wd[idx_tab[c_, a_] if batched else idx_tab[a_]] for c_ in range(nbt)] for a_ in range(nk)])
+    if w["reduce_bt"] and sd.ndim == 1 and batched:
+        want = np.broadcast_to(full.sum(1, keepdims=True), full.shape)      # bt summed: a function of a only
+    else:
+        want = full                                                         # batch reading: entry (a, bt)
+    return "value", got, want
+
+
 SCATTER_SNIPPET = """
+import sys
+sys.path.insert(0, "/verif")
 import numpy as np
-from collections import OrderedDict
-import funsor, funsor.ops as ops
-from funsor.domains import Bint
-from funsor.tensor import Tensor
-from funsor.terms import Scatter, Variable
-from funsor.interpretations import reflect
-from funsor.adjoint import forward_backward
-funsor.set_backend("numpy")
+from fv.harness import c11
 w = {found!r}
-log = w["sr"] != "add-mul"
-sum_op, prod_op = (ops.logaddexp, ops.add) if log else (ops.add, ops.mul)
-conv = (lambda a: np.log(np.array(a, dtype=float))) if log else (lambda a: np.array(a, dtype=float))
-nk, ni = len(w["src"]), len(w["w"])
-src = Tensor(conv(w["src"]), OrderedDict(a=Bint[nk]))
-idx = Tensor(np.array(w["idx"]), OrderedDict(a=Bint[nk]), ni)
-wt = Tensor(conv(w["w"]), OrderedDict(b=Bint[ni]))
-with reflect:
-    dest = Scatter(sum_op, (("b", idx),), src, frozenset({{Variable("a", Bint[nk])}}))
-    e = prod_op(dest, wt).reduce(sum_op, "b")
-fwd, bwd = forward_backward(sum_op, prod_op, e)
-g = bwd[src]
-got = np.exp(g.data) if log else np.asarray(g.data)
-print("adjoint of the Scatter's source:", got, " expected w[idx]:", w["derivative"])
-FAILS = not (np.shape(got) == (nk,) and np.allclose(got, w["derivative"]))
+status, got, want = c11.run_scatter(w)
+print(status, "adjoint of the Scatter's source over (a, c):", got, " expected:", want)
+FAILS = status != "value" or not np.allclose(got, want, rtol=1e-9)
 """
 
 
 def scatter_stream(ctx, n):
-    from funsor.terms import Scatter
     rng = ctx.rng
     found = None
     for _ in range(n):
         sr = rng.choice(["add-mul", "logaddexp-add"])
-        sum_op, prod_op = (ops.add, ops.mul) if sr == "add-mul" else (ops.logaddexp, ops.add)
         nk = rng.choice([1, 2, 3])
         ni = rng.choice([s_ for s_ in (2, 3, 4) if s_ >= nk])
-        perm = rng.sample(range(ni), nk)
-        sd = gen_data(rng, (nk,), nonzero=True)
-        wd = gen_data(rng, (ni,), nonzero=True)
-        src = Tensor(to_impl_data(sd, sr), OrderedDict(a=Bint[nk]))
-        idx = Tensor(np.array(perm), OrderedDict(a=Bint[nk]), ni)
-        wt = Tensor(to_impl_data(wd, sr), OrderedDict(b=Bint[ni]))
+        mode = rng.choice(["plain", "batched-free", "batched-free", "batched-reduced"])
+        nbt = rng.choice([2, 3])
+        if mode == "plain":
+            idx = rng.sample(range(ni), nk)
+        else:
+            idx = [rng.sample(range(ni), nk) for _ in range(nbt)]       # injective in a for every batch element
+        src_has_bt = mode != "plain" and rng.random() < 0.4
+        sd = gen_data(rng, (nbt, nk) if src_has_bt else (nk,), nonzero=True)
+        w = dict(sr=sr, idx=idx, src=sd.tolist(), w=gen_data(rng, (ni,), nonzero=True).tolist(),
+                 reduce_bt=(mode == "batched-reduced"))
         try:
-            with reflect:
-                dest = Scatter(sum_op, (("b", idx),), src, frozenset({Variable("a", Bint[nk])}))
-                e = prod_op(dest, wt).reduce(sum_op, "b")
-            with np.errstate(all="ignore"):
-                fwd, bwd = forward_backward(sum_op, prod_op, e)
-            g = bwd[src]
-            t = lin_table(g, [(0, nk)], sr)
+            status, got, want = run_scatter(w)
         except (AssertionError, ValueError, NotImplementedError, KeyError, TypeError) as ex:
-            ctx.count(f"scatter-source:declined:{type(ex).__name__}")
+            ctx.count(f"scatter-source:{mode}:declined:{type(ex).__name__}")
             continue
-        want = wd[perm]
-        good = t is not None and set(getattr(g, "inputs", ())) == {"a"} and np.allclose(t, want, rtol=1e-9)
-        ctx.count("scatter-source:" + ("ok" if good else "wrong"))
+        good = status == "value" and np.allclose(got, want, rtol=1e-9, atol=0)
+        ctx.count(f"scatter-source:{mode}{':src-batched' if src_has_bt else ''}:" + ("ok" if good else "wrong"))
         if good:
-            ctx.case(nontrivial_key=("scatter-source", sr, tuple(perm), sd.tobytes(), wd.tobytes()) if nk > 1 else None)
+            ctx.case(nontrivial_key=("scatter-source", repr(sorted(w.items()))) if nk > 1 else None)
         if not good and found is None:
-            found = dict(sr=sr, src=sd.tolist(), idx=perm, w=wd.tolist(), derivative=want.tolist(),
-                         funsor=str(g)[:120])
+            found = dict(w, derivative=None if want is None else np.asarray(want).tolist(),
+                         funsor=str(got)[:200] if not hasattr(got, "tolist") else str(np.asarray(got).tolist()))
     # part of the clean stream since /repo 63a064e (adjoint_scatter no longer reduces the source's inputs)
     if found is not None:
         ctx.fail("input", "C11.scatter-source-adjoint", witness=found, expected=str(found["derivative"]),
@@ -2234,6 +2252,7 @@ def correspond(ctx):
     ctx.assumptions.append("float64 arithmetic on small integers / dyadic rationals is exact; the log semiring, and (add,mul) terms containing a product-reduce (safediv = multiplication by a rounded reciprocal), are compared in linear space with rtol 1e-9; magnitudes beyond 2**50 with rtol 1e-12")
     ctx.assumptions.append("with apply_optimizer the leaves are the tensors of the optimizer's output (its unfold pass evaluates Subs(Tensor) eagerly, outside the tape); the output is re-read into the model's syntax modulo __BOUND suffixes exactly as AdjointTape.adjoint un-mangles names")
     ctx.assumptions.append("wide-range log weights (offsets 0/-30/-300/-800/-2000 per leaf and per first-axis element, -inf cells; 3-step homogeneous HMM with one shared transition leaf) are compared in log space against an exact oracle (Laurent polynomials in e, logs by the max-shifted form): finite iff the oracle is finite, rtol 1e-9 on the log value; plain path only — the optimizer's log-einsum kernel is the region of the open KF-logeinsum-underflow (C10)")
+    ctx.assumptions.append("sound_scat / the DAG Scatter case take the index map as a function of the source variable only (tabAt t); index tensors with an extra batch input (free or reduced in the root, source with or without it) are tied by correspondence only (scatter_stream)")
     ctx.assumptions.append("dag_adjoint_sound: the sweep over the DAG tape (argument indices, shared nodes accumulate before they are popped) returns the derivative of the unfolded root; the driver's DAG is the hash-consing of the term (structurally equal sub-terms = one node); tie to the real tape: number/kind of recorded entries and pop order (counted), and the adjoint accumulated at every node when popped = funsor's adjoint of that lazy node (gated, incl. shared nodes); un-mangling and the eager-value keys of the real tape are exercised by correspondence only")
     ctx.assumptions.append("adjoint_sound covers every node kind of the model (direct / Subs / Cat leaves, ⊕, ⊗, sum- and product-reduce); the proved sweep is tree-shaped — the tape's DAG sharing and its keying of adjoint_values by un-mangled eager values are exercised by correspondence only (aliasing block; dedicated streams tape-key-collision, binder-free-clash, opt-rebinding)")
     ctx.assumptions.append("clean-stream side conditions beyond Lean's `Good` (implementation-specific, each with its dedicated stream or owner): Cat with part_name == name, with the optimizer every variable bound once and no repeated identical Reduce (KF-shared-binder-unfold), no pure renaming onto a surviving axis of the same leaf (KF-adjoint-scatter-number-shortcut), no root input used as a substitution value (funsor's renaming convention, test_adjoint_subs_tensor_rename)")
